@@ -108,6 +108,18 @@ impl<'a> Gen<'a> {
         }
     }
 
+    /// Values are never judged: every one of them must surface unchanged.
+    fn attr_value(&mut self) -> String {
+        match self.rng.below(14) {
+            0 => "v".repeat(600),
+            1 => "_reserved".to_string(),
+            2 => "  padded  ".to_string(),
+            3 => "é✓\u{00A0}".to_string(),
+            4 => "a\nb\tc".to_string(),
+            _ => self.rng.pick(&["", "v", " ", "_", "1", "x"]).to_string(),
+        }
+    }
+
     fn event_type(&mut self) -> String {
         if self.pct(self.p.bad_attr_pct) {
             self.rng.pick(&["", "a", " a ", "\u{00A0}a", " ", "\t", "x"]).to_string()
@@ -215,7 +227,7 @@ impl<'a> Gen<'a> {
         if self.p.rich_output {
             for _ in 0..self.rng.below(4) {
                 let k = self.attr_key();
-                let v = self.rng.pick(&["", "v", " ", "_", "1"]).to_string();
+                let v = self.attr_value();
                 s.attrs.push((k, v));
             }
             for _ in 0..self.rng.below(3) {
@@ -223,7 +235,8 @@ impl<'a> Gen<'a> {
                 let mut attrs = vec![];
                 for _ in 0..self.rng.below(3) {
                     let k = self.attr_key();
-                    attrs.push((k, self.rng.pick(&["", "x"]).to_string()));
+                    let v = self.attr_value();
+                    attrs.push((k, v));
                 }
                 s.events.push(Ev { ty, attrs });
             }
